@@ -162,6 +162,11 @@ def main():
     for n in us:
         needed_imports |= set(imported_keys(us[n]))
     undec = []
+    alias = spec.get("tag_alias", {})   # unit -> property ids whose obligations this property also depends on
+
+    def is_tagged(n, fm):
+        pr = fm.get("props", [])
+        return pid in pr or any(x in pr for x in alias.get(n, ()))
     for n, u in us.items():
         r = results[(n, False)]
         if r.status == "undecided" and r.meta is None:
@@ -170,7 +175,7 @@ def main():
         for mod, mm in r.meta["modules"].items():
             if mm["mode"] == "lost":
                 for fm in mm["fns"]:
-                    if (pid in fm.get("props", []) and n in primary) or (n, mm["header"], fm["fn"]) in needed_imports:
+                    if (is_tagged(n, fm) and n in primary) or (n, mm["header"], fm["fn"]) in needed_imports:
                         wanted.append((n, mod, mm, fm, dict(status="undecided", errors=[dict(kind="other", title=mm.get("error", "lost anchor"), text="", lines=[], cover=False)])))
                 continue
             if mm["mode"] != "verify":
@@ -178,7 +183,7 @@ def main():
             for fm in mm["fns"]:
                 if fm.get("mode") == "decl":
                     continue
-                tagged = pid in fm.get("props", []) and n in primary
+                tagged = is_tagged(n, fm) and n in primary
                 imported = (n, mm["header"], fm.get("display", fm["fn"])) in needed_imports
                 if tagged or imported:
                     wanted.append((n, mod, mm, fm, r.fns.get((mod, fm["fn"]))))
@@ -363,11 +368,12 @@ def main():
                     cex = dict(error=str(e))
             if cex and cex.get("input"):
                 found_any = True
-            if any(re_.search(r"simplifies to false", e.get("title", "")) for e in v.get("errors", [])):
+            if any(re_.search(r"simplifies to false|which evaluates to false", e.get("title", "")) for e in v.get("errors", [])):
                 # a ground lemma falsified by exact evaluation: the lemma text with its numerals *is* the failing input
                 found_any = True
-                cex = dict(input="ground statement evaluated to false by Verus by(compute_only)", statement=[e.get("text", "")[:1500] for e in v.get("errors", [])])
-            rep["failed_obligations"].append(dict(obligation=oid, unit=n, file=mm.get("file"), header=mm.get("header"),
+                st_ = [e.get("text", "")[:1500] for e in v.get("errors", [])]
+                cex = dict(cex, statement=st_) if (cex and cex.get("input")) else dict(input="ground statement evaluated to false by Verus by(compute_only)", statement=st_)
+            rep["failed_obligations"].append(dict(obligation=oid, unit=n, file=fm.get("file") or mm.get("file"), header=mm.get("header"),
                                                   fn=fm["fn"], lines=fm.get("lines"),
                                                   verifier_output=[e["text"] for e in v.get("errors", [])][:6],
                                                   counterexample=cex))
